@@ -23,13 +23,13 @@ theorem Compat.large (hc : Compat w wJ) (h : ¬ wJ ≤ w) : wJ / w * w = wJ := b
   · exact Nat.div_mul_cancel hd
 
 /-- `idx < ⌈a / b⌉ ↔ idx * b < a` -/
-theorem lt_ceilDiv_iff (a b idx : Nat) (hb : 0 < b) : idx < (a + b - 1) / b ↔ idx * b < a := by
+theorem rc_lt_ceilDiv_iff (a b idx : Nat) (hb : 0 < b) : idx < (a + b - 1) / b ↔ idx * b < a := by
   rw [Nat.lt_iff_add_one_le, Nat.le_div_iff_mul_le hb, Nat.add_mul]
   omega
 
 
 -- ---- index arithmetic for the two directions ----------------------------------------------------
-theorem small_idx' (r wJ idx j : Nat) (hj : j < wJ) (hr : 0 < r) :
+theorem rc_small_idx' (r wJ idx j : Nat) (hj : j < wJ) (hr : 0 < r) :
     (idx * wJ + j) / (r * wJ) = idx / r ∧ (idx * wJ + j) % (r * wJ) = idx % r * wJ + j := by
   have hm := Nat.mod_lt idx hr
   have hb : idx % r * wJ + j < r * wJ := by
@@ -43,15 +43,15 @@ theorem small_idx' (r wJ idx j : Nat) (hj : j < wJ) (hr : 0 < r) :
   rw [e]
   exact div_mod_unique hpos _ _ hb
 
-theorem small_idx (hc : Compat w wJ) (h : wJ ≤ w) (idx j : Nat) (hj : j < wJ) :
+theorem rc_small_idx (hc : Compat w wJ) (h : wJ ≤ w) (idx j : Nat) (hj : j < wJ) :
     (idx * wJ + j) / w = idx / (w / wJ) ∧ (idx * wJ + j) % w = idx % (w / wJ) * wJ + j := by
   have e := hc.small h
   have hr : 0 < w / wJ := Nat.div_pos h hc.2.1
-  have := small_idx' (w / wJ) wJ idx j hj hr
+  have := rc_small_idx' (w / wJ) wJ idx j hj hr
   rw [e] at this
   exact this
 
-theorem large_idx (s idx j : Nat) (hw : 0 < w) :
+theorem rc_large_idx (s idx j : Nat) (hw : 0 < w) :
     (idx * (s * w) + j) / w = idx * s + j / w ∧ (idx * (s * w) + j) % w = j % w := by
   have e : idx * (s * w) + j = w * (idx * s) + j := by
     rw [← Nat.mul_assoc, Nat.mul_comm]
@@ -59,7 +59,7 @@ theorem large_idx (s idx j : Nat) (hw : 0 < w) :
   exact ⟨Nat.mul_add_div hw _ _, Nat.mul_add_mod _ _ _⟩
 
 /-- the little-endian gather loop of `get_int` (wide target) -/
-theorem getLsbD_gather (ws : Array (BitVec w)) (wJ base k j : Nat) (hw : 0 < w) :
+theorem rc_getLsbD_gather (ws : Array (BitVec w)) (wJ base k j : Nat) (hw : 0 < w) :
     (List.foldl (fun v i => v ||| ((wd ws (base + i)).setWidth wJ <<< (w * i))) 0#wJ
         (List.range' 0 k)).getLsbD j
       = (decide (j < wJ) && decide (j < w * k) && (wd ws (base + j / w)).getLsbD (j % w)) := by
@@ -101,7 +101,7 @@ theorem sliceGetInt_isSome (ws : Array (BitVec w)) (wJ idx : Nat) (hc : Compat w
     · rename_i h1; simp only [Option.isSome_none, Bool.false_eq_true, false_iff]
       exact fun h2 => h1 (key.mpr h2)
   · simp only [h, if_false]
-    have key := lt_ceilDiv_iff (ws.size * w) wJ idx hc.2.1
+    have key := rc_lt_ceilDiv_iff (ws.size * w) wJ idx hc.2.1
     unfold sliceIntLen
     split
     · rename_i h1; simp only [Option.isSome_none, Bool.false_eq_true, false_iff]
@@ -120,7 +120,7 @@ theorem getLsbD_sliceGetInt (ws : Array (BitVec w)) (wJ idx : Nat) (hc : Compat 
       subst h
       rw [BitVec.getLsbD_setWidth, BitVec.getLsbD_ushiftRight]
       by_cases hj : j < wJ
-      · obtain ⟨e1, e2⟩ := small_idx hc hle idx j hj
+      · obtain ⟨e1, e2⟩ := rc_small_idx hc hle idx j hj
         unfold bitAt
         rw [e1, e2]
       · simp [hj]
@@ -131,9 +131,9 @@ theorem getLsbD_sliceGetInt (ws : Array (BitVec w)) (wJ idx : Nat) (hc : Compat 
     · injection h with h
       subst h
       unfold forRange
-      rw [Nat.sub_zero, getLsbD_gather _ _ _ _ _ hc.1]
+      rw [Nat.sub_zero, rc_getLsbD_gather _ _ _ _ _ hc.1]
       have e := hc.large hle
-      obtain ⟨e1, e2⟩ := large_idx (wJ / w) idx j hc.1
+      obtain ⟨e1, e2⟩ := rc_large_idx (wJ / w) idx j hc.1
       rw [e] at e1 e2
       unfold bitAt
       rw [e1, e2, Nat.mul_comm w, e]
@@ -180,5 +180,190 @@ theorem Raw.getInt_toNat (s : Raw w) (hc : Compat w wJ) (h : s.Inv) (idx : Nat) 
   rw [← BitVec.getLsbD, Raw.getInt_getLsbD s hc h, Nat.testBit_mod_two_pow, Nat.testBit_shiftRight,
     ← Raw.abs_bit s _ hc.1]
   rfl
+
+-- ---- `sliceSetInt` ----------------------------------------------------------------------------------
+theorem rc_bitAt_setIfInBounds (a : Array (BitVec w)) (n : Nat) (x : BitVec w) (i : Nat) :
+    bitAt (a.setIfInBounds n x) i
+      = if i / w = n ∧ n < a.size then x.getLsbD (i % w) else bitAt a i := by
+  unfold bitAt wd
+  simp only [Array.getD_eq_getD_getElem?, Array.getElem?_setIfInBounds]
+  by_cases h : n = i / w
+  · subst h
+    by_cases h2 : i / w < a.size <;> simp [h2]
+  · have : ¬ (i / w = n) := fun e => h e.symm
+    simp [h, this]
+
+theorem rc_size_scatter (ws : Array (BitVec w)) (v : BitVec wJ) (base k : Nat) :
+    (List.foldl (fun a t => a.setIfInBounds (base + t) ((v >>> (w * t)).setWidth w)) ws
+        (List.range' 0 k)).size = ws.size := by
+  induction k with
+  | zero => simp
+  | succ k ih =>
+    rw [List.range'_concat, List.foldl_append]
+    simp [ih]
+
+/-- the little-endian scatter loop of `set_int` (wide source) -/
+theorem rc_bitAt_scatter (ws : Array (BitVec w)) (v : BitVec wJ) (base k i : Nat) (hw : 0 < w) :
+    bitAt (List.foldl (fun a t => a.setIfInBounds (base + t) ((v >>> (w * t)).setWidth w)) ws
+        (List.range' 0 k)) i
+      = if base ≤ i / w ∧ i / w < base + k ∧ i / w < ws.size then v.getLsbD (i - base * w)
+        else bitAt ws i := by
+  induction k with
+  | zero =>
+    have : ¬ (base ≤ i / w ∧ i / w < base + 0 ∧ i / w < ws.size) := by omega
+    rw [if_neg this]
+    rfl
+  | succ k ih =>
+    rw [List.range'_concat, List.foldl_append]
+    simp only [List.foldl_cons, List.foldl_nil, Nat.zero_add, Nat.one_mul]
+    rw [rc_bitAt_setIfInBounds, rc_size_scatter, ih]
+    by_cases h1 : i / w = base + k
+    · by_cases h2 : base + k < ws.size
+      · have c : base ≤ i / w ∧ i / w < base + (k + 1) ∧ i / w < ws.size := by omega
+        rw [if_pos ⟨h1, h2⟩, if_pos c, BitVec.getLsbD_setWidth, BitVec.getLsbD_ushiftRight]
+        have hi := idx_eq (w := w) i
+        have hm := Nat.mod_lt i hw
+        have e1 : w * (i / w) = w * base + w * k := by rw [h1, Nat.mul_add]
+        have e2 : base * w = w * base := Nat.mul_comm _ _
+        have : i - base * w = w * k + i % w := by omega
+        simp [hm, this]
+      · rw [if_neg (by omega), if_neg (by omega), if_neg (by omega)]
+    · rw [if_neg (by omega)]
+      have : (base ≤ i / w ∧ i / w < base + k ∧ i / w < ws.size)
+          ↔ (base ≤ i / w ∧ i / w < base + (k + 1) ∧ i / w < ws.size) := by omega
+      simp only [this]
+
+theorem size_sliceSetInt (ws : Array (BitVec w)) (wJ idx : Nat) (v : BitVec wJ) :
+    (sliceSetInt ws wJ idx v).size = ws.size := by
+  unfold sliceSetInt
+  dsimp only
+  split
+  · split
+    · simp
+    · rfl
+  · split
+    · rfl
+    · unfold forRange
+      exact rc_size_scatter _ _ _ _
+
+theorem sliceSetInt_small (ws : Array (BitVec w)) (wJ idx : Nat) (hc : Compat w wJ)
+    (v : BitVec wJ) (hle : wJ ≤ w) (hin : idx < ws.size * (w / wJ)) :
+    sliceSetInt ws wJ idx v = writeBits ws (idx * wJ) wJ (v.setWidth w) := by
+  unfold sliceSetInt writeBits
+  obtain ⟨e1, e2⟩ := rc_small_idx hc hle idx 0 hc.2.1
+  simp only [Nat.add_zero] at e1 e2
+  simp only [hle, hin, if_true, e1, e2]
+
+theorem bitAt_sliceSetInt (ws : Array (BitVec w)) (wJ idx : Nat) (hc : Compat w wJ)
+    (v : BitVec wJ) (i : Nat) :
+    bitAt (sliceSetInt ws wJ idx v) i
+      = if idx * wJ ≤ i ∧ i < (idx + 1) * wJ ∧ i < ws.size * w then v.getLsbD (i - idx * wJ)
+        else bitAt ws i := by
+  have hw := hc.1
+  have hJ := hc.2.1
+  have hsucc : (idx + 1) * wJ = idx * wJ + wJ := by rw [Nat.add_mul, Nat.one_mul]
+  by_cases hle : wJ ≤ w
+  · have e := hc.small hle
+    have e2 : ws.size * w = ws.size * (w / wJ) * wJ := by rw [Nat.mul_assoc, e]
+    by_cases hin : idx < ws.size * (w / wJ)
+    · rw [sliceSetInt_small ws wJ idx hc v hle hin]
+      obtain ⟨d1, d2⟩ := rc_small_idx hc hle idx 0 hJ
+      obtain ⟨_, d3⟩ := rc_small_idx hc hle idx (wJ - 1) (by omega)
+      have hm := Nat.mod_lt (idx * wJ + (wJ - 1)) hw
+      simp only [Nat.add_zero] at d1 d2
+      have hfit : idx * wJ % w + wJ ≤ w := by omega
+      have hin2 : idx * wJ / w < ws.size := by
+        rw [d1]; exact (Nat.div_lt_iff_lt_mul (Nat.div_pos hle hJ)).mpr hin
+      have hfull : idx * wJ + wJ ≤ ws.size * w := by
+        have := Nat.mul_le_mul_right wJ (Nat.succ_le_of_lt hin)
+        rw [Nat.succ_mul] at this
+        omega
+      rw [bitAt_writeBits ws (idx * wJ) wJ i (v.setWidth w) hw hfit hin2
+        (fun j hj => by rw [BitVec.getLsbD_setWidth, BitVec.getLsbD_of_ge v j hj]; simp)]
+      by_cases hcnd : idx * wJ ≤ i ∧ i < idx * wJ + wJ
+      · have hcnd' : idx * wJ ≤ i ∧ i < (idx + 1) * wJ ∧ i < ws.size * w := by omega
+        rw [if_pos hcnd, if_pos hcnd', BitVec.getLsbD_setWidth]
+        have : i - idx * wJ < w := by omega
+        simp [this]
+      · have hcnd' : ¬ (idx * wJ ≤ i ∧ i < (idx + 1) * wJ ∧ i < ws.size * w) := by omega
+        rw [if_neg hcnd, if_neg hcnd']
+    · have hout : ws.size * w ≤ idx * wJ := by
+        rw [e2]; exact Nat.mul_le_mul_right wJ (by omega)
+      have hcnd' : ¬ (idx * wJ ≤ i ∧ i < (idx + 1) * wJ ∧ i < ws.size * w) := by omega
+      rw [if_neg hcnd']
+      unfold sliceSetInt
+      simp only [hle, hin, if_true, if_false]
+  · have e := hc.large hle
+    have key := rc_lt_ceilDiv_iff (ws.size * w) wJ idx hJ
+    unfold sliceSetInt sliceIntLen
+    simp only [hle, if_false]
+    split
+    · rename_i h1
+      have hcnd' : ¬ (idx * wJ ≤ i ∧ i < (idx + 1) * wJ ∧ i < ws.size * w) := by
+        intro hh
+        have := key.mpr (by omega)
+        omega
+      rw [if_neg hcnd']
+    · unfold forRange
+      rw [Nat.sub_zero, rc_bitAt_scatter _ _ _ _ _ hw]
+      have a1 : idx * (wJ / w) * w = idx * wJ := by rw [Nat.mul_assoc, e]
+      have a2 : (idx * (wJ / w) + wJ / w) * w = idx * wJ + wJ := by rw [Nat.add_mul, a1, e]
+      have c1 : idx * (wJ / w) ≤ i / w ↔ idx * wJ ≤ i := by
+        rw [Nat.le_div_iff_mul_le hw, a1]
+      have c2 : i / w < idx * (wJ / w) + wJ / w ↔ i < (idx + 1) * wJ := by
+        rw [Nat.div_lt_iff_lt_mul hw, a2, hsucc]
+      have c3 : i / w < ws.size ↔ i < ws.size * w := Nat.div_lt_iff_lt_mul hw
+      simp only [c1, c2, c3, a1]
+
+-- ---- `Raw.setInt` -----------------------------------------------------------------------------------
+theorem Raw.setInt_size (s : Raw w) (idx : Nat) (v : BitVec wJ) :
+    (s.setInt wJ idx v).data.size = s.data.size := by
+  unfold Raw.setInt
+  split
+  · exact size_sliceSetInt _ _ _ _
+  · rfl
+
+theorem Raw.setInt_length (s : Raw w) (idx : Nat) (v : BitVec wJ) :
+    (s.setInt wJ idx v).length = s.length := by
+  unfold Raw.setInt
+  split <;> rfl
+
+theorem Raw.setInt_bits (s : Raw w) (hc : Compat w wJ) (h : s.Inv) (idx : Nat) (v : BitVec wJ)
+    (i : Nat) :
+    bitAt (s.setInt wJ idx v).data i
+      = if idx * wJ ≤ i ∧ i < (idx + 1) * wJ ∧ i < s.length then v.getLsbD (i - idx * wJ)
+        else bitAt s.data i := by
+  have hcap := h.1
+  have hsucc : (idx + 1) * wJ = idx * wJ + wJ := by rw [Nat.add_mul, Nat.one_mul]
+  unfold Raw.setInt
+  split
+  · rename_i h1
+    dsimp only
+    rw [bitAt_sliceSetInt _ _ _ hc]
+    by_cases c : idx * wJ ≤ i ∧ i < (idx + 1) * wJ ∧ i < s.data.size * w
+    · rw [if_pos c, BitVec.getLsbD_and, getLsbD_mask]
+      by_cases c2 : i < s.length
+      · have c' : idx * wJ ≤ i ∧ i < (idx + 1) * wJ ∧ i < s.length := ⟨c.1, c.2.1, c2⟩
+        have m1 : i - idx * wJ < wJ := by omega
+        have m2 : i - idx * wJ < s.length - idx * wJ := by omega
+        rw [if_pos c']
+        simp [m1, m2]
+      · have c' : ¬ (idx * wJ ≤ i ∧ i < (idx + 1) * wJ ∧ i < s.length) := by omega
+        have m2 : ¬ (i - idx * wJ < s.length - idx * wJ) := by omega
+        rw [if_neg c', h.2 i (by omega)]
+        simp [m2]
+    · have c' : ¬ (idx * wJ ≤ i ∧ i < (idx + 1) * wJ ∧ i < s.length) := by omega
+      rw [if_neg c, if_neg c']
+  · rename_i h1
+    have c' : ¬ (idx * wJ ≤ i ∧ i < (idx + 1) * wJ ∧ i < s.length) := by omega
+    rw [if_neg c']
+
+theorem Raw.setInt_inv (s : Raw w) (hc : Compat w wJ) (h : s.Inv) (idx : Nat) (v : BitVec wJ) :
+    (s.setInt wJ idx v).Inv := by
+  unfold Raw.Inv
+  rw [Raw.setInt_size, Raw.setInt_length]
+  refine ⟨h.1, fun i hi => ?_⟩
+  rw [Raw.setInt_bits s hc h, if_neg (by omega)]
+  exact h.2 i hi
 
 end Bva
